@@ -57,6 +57,16 @@ expressions
   `Atoms(k1=e1, …)` (`ctor`)              the constructor call as DATA: (the sorted list of ALL keyword names passed, then for
                                           every keyword declared in `ctor["kwargs"]` `some value` / `none` = not passed);
                                           positional arguments are Unsupported
+batch 8 (calc_dihedrals, the type-numbering slice of assign_bond_types / assign_angle_types)
+  `g.edges`                               `Py6.nxEdges g` (networkx EdgeView iteration: nodes in order, neighbours in order, completed
+                                          nodes skipped), pinned by python assertions in tools/gen_code6_selftest.py
+  `g.adj[n]`                              `Py6.nxNeighbors g n`
+  `xs.remove(v)` (statement)              `xs ← Py6.listRemove? xs v` (first occurrence; `none` = ValueError; partial functions only)
+  `xs.index(v)`                           `Py6.listIndex? xs v` (first position; `none` = ValueError)
+  `list(dict.fromkeys(xs).keys())`        `Py6.fromkeysList xs` (distinct values in first-seen order; also without `.keys()`)
+  `obj.attr = e` (`objattr_assign`)       on a declared attribute of a parameter object: later reads of `obj.attr` see the new value
+  `if x is not None and c:`               x an optional parameter: `if x is not None: (if c: A else: B) else: B`
+  `f(xs)` for a generic callee (typekey)  the callee's element type is instantiated at the element type of `xs` (str / nat / int)
 ----------------------------------------------------------------------------------------------------------------
 """
 import ast
